@@ -1,9 +1,120 @@
 import LinfaSpec.Model.Proto
+import LinfaSpec.Model.Scalar
+import LinfaSpec.Model.KMeans
 
 namespace LinfaSpec.Drv.C09
-open LinfaSpec.Proto
+open LinfaSpec.Proto LinfaSpec.KMeans
 
-/-- stub: replaced when the property's model lands -/
-def handle (_toks : List String) : String := "bad-op"
+abbrev Mat := List (List Float)
+
+/-- `Distance::rdistance` of the three metrics the harness uses -/
+def rdOf (metric : String) : Option (List Float → List Float → Float) :=
+  if metric == "l2" then some sqL2
+  else if metric == "l1" then some l1
+  else if metric == "linf" then some linf
+  else none
+
+/-- `Distance::distance` on the two centroid matrices (one `Zip` over all cells, row-major) -/
+def distOf (metric : String) (a b : Mat) : Float :=
+  if metric == "l2" then Float.sqrt (sqL2 a.flatten b.flatten)
+  else if metric == "l1" then l1 a.flatten b.flatten
+  else linf a.flatten b.flatten
+
+def inf : Float := 1.0 / 0.0
+def ltInf (x : Float) : Bool := x < inf
+
+/-- rectangular, at least one column -/
+def wellFormed (p : Nat) (m : Mat) : Bool := m.all (fun r => r.length == p)
+
+def showMat (m : Mat) : String := showList2 showF64 m
+
+def showFitted (f : Option (Fitted Float)) : String :=
+  match f with
+  | none => "err"
+  | some f => s!"C={showMat f.centroids} n={showList toString f.counts} in={showF64c f.inertia}"
+
+structure Setup where
+  metric : String
+  rd : List Float → List Float → Float
+  xs : Mat
+  p : Nat
+  tol : Float
+
+def setup (toks : List String) : Option Setup := do
+  let metric ← arg toks "metric"
+  let rd ← rdOf metric
+  let xs ← argF64s2 toks "X"
+  let tol ← argF64 toks "tol"
+  let p := (xs.headD []).length
+  if xs.isEmpty || p == 0 || !wellFormed p xs then none
+  else some { metric, rd, xs, p, tol }
+
+def okInit (s : Setup) (k : Nat) (c : Mat) : Bool := c.length == k && k != 0 && wellFormed s.p c
+
+def conv (s : Setup) (a b : Mat) : Bool := distOf s.metric a b < s.tol
+
+def doFit (s : Setup) (k m : Nat) (inits : List Mat) : Option (Fitted Float) :=
+  fit s.rd (conv s) ltInf k s.xs m inits
+
+def handleClosest (toks : List String) : Option String := do
+  let metric ← arg toks "metric"
+  let rd ← rdOf metric
+  let cs ← argF64s2 toks "C"
+  let x ← argF64s toks "x"
+  if cs.isEmpty || x.isEmpty || !wellFormed x.length cs then none else
+  let r := closest rd cs x
+  some s!"ok {r.1} {showF64c r.2}"
+
+def handleUpdate (toks : List String) : Option String := do
+  let cs ← argF64s2 toks "C"
+  let xs ← argF64s2 toks "X"
+  let mem ← argNats toks "mem"
+  let p := (cs.headD []).length
+  if cs.isEmpty || p == 0 || !wellFormed p cs || !wellFormed p xs || mem.length != xs.length
+     || mem.any (fun j => j ≥ cs.length) then none else
+  some ("ok " ++ showMat (updateCentroids cs xs mem))
+
+/-- one fit from a precomputed matrix; then predict / transform on the training rows and on `Q` -/
+def handleFit (toks : List String) : Option String := do
+  let s ← setup toks
+  let init ← argF64s2 toks "init"
+  let m ← argNat toks "m"
+  let q ← argF64s2 toks "Q"
+  if m == 0 || !okInit s init.length init || !wellFormed s.p q then none else
+  match doFit s init.length m [init] with
+  | none => some "err"
+  | some f =>
+    let a := assign s.rd f.centroids (s.xs ++ q)
+    some s!"ok {showFitted (some f)} pred={showList toString (a.map (·.1))} tr={showList showF64c (a.map (·.2))}"
+
+/-- the whole trajectory: budgets `1..M` from the same initial matrix -/
+def handleTraj (toks : List String) : Option String := do
+  let s ← setup toks
+  let init ← argF64s2 toks "init"
+  let mm ← argNat toks "M"
+  if mm == 0 || !okInit s init.length init then none else
+  let parts := (List.range mm).map fun i => s!"m={i + 1} {showFitted (doFit s init.length (i + 1) [init])}"
+  some ("ok " ++ " ".intercalate parts)
+
+/-- restarts `1..R`: run `i` starts from `inits[i]` (observed through the hook) -/
+def handleRestarts (toks : List String) : Option String := do
+  let s ← setup toks
+  let inits ← (arg toks "inits").bind (parseList3 parseF64)
+  let m ← argNat toks "m"
+  let k ← argNat toks "k"
+  if m == 0 || inits.isEmpty || !inits.all (okInit s k) then none else
+  let rs := (List.range inits.length).map (· + 1)
+  let parts := rs.map fun r => s!"r={r} {showFitted (doFit s k m (inits.take r))}"
+  some ("ok " ++ " ".intercalate parts)
+
+def handle (toks : List String) : String :=
+  let r := match toks with
+    | "closest" :: rest => handleClosest rest
+    | "update" :: rest => handleUpdate rest
+    | "fit" :: rest => handleFit rest
+    | "traj" :: rest => handleTraj rest
+    | "restarts" :: rest => handleRestarts rest
+    | _ => none
+  r.getD "bad-op"
 
 end LinfaSpec.Drv.C09
